@@ -26,6 +26,23 @@ type opFacts struct {
 	VarNamedID        bool // a client variable is called `id`, like the executor's own $id of child steps
 	DirectiveOnHelper bool // a client-selected field named id/__typename carries a directive (@skip/@include)
 	FragDirectiveVar  bool // a variable is used inside a directive of an inline fragment / fragment spread
+	EmptyListDefault  bool // a variable's declared default is, or contains, an EMPTY list literal (`= []`, `= {tags: []}`)
+}
+
+// hasEmptyList: the value is an empty list literal or contains one (through lists and input objects).
+func hasEmptyList(v *ast.Value) bool {
+	if v == nil {
+		return false
+	}
+	if v.Kind == ast.ListValue && len(v.Children) == 0 {
+		return true
+	}
+	for _, c := range v.Children {
+		if hasEmptyList(c.Value) {
+			return true
+		}
+	}
+	return false
 }
 
 func analyseOp(schema *ast.Schema, doc *ast.QueryDocument, op *ast.OperationDefinition) opFacts {
@@ -33,6 +50,9 @@ func analyseOp(schema *ast.Schema, doc *ast.QueryDocument, op *ast.OperationDefi
 	for _, vd := range op.VariableDefinitions {
 		if vd.DefaultValue != nil {
 			f.VarDefault = true
+			if hasEmptyList(vd.DefaultValue) {
+				f.EmptyListDefault = true
+			}
 		}
 		if vd.Variable == "id" {
 			f.VarNamedID = true
@@ -138,8 +158,7 @@ func analyseOp(schema *ast.Schema, doc *ast.QueryDocument, op *ast.OperationDefi
 }
 
 type dataFacts struct {
-	HashInID     bool
-	NullObjElems bool
+	HashInID bool
 }
 
 func analyseData(d *fed.Data) dataFacts {
@@ -147,48 +166,6 @@ func analyseData(d *fed.Data) dataFacts {
 	for id := range d.Entities {
 		if strings.Contains(id, "#") {
 			f.HashInID = true
-		}
-	}
-	var walk func(v fed.Val)
-	walk = func(v fed.Val) {
-		switch v.Kind {
-		case "list":
-			hasObj, hasNull := false, false
-			for _, e := range v.List {
-				if e.Kind == "ref" || e.Kind == "obj" {
-					hasObj = true
-				}
-				if e.Kind == "null" {
-					hasNull = true
-				}
-				walk(e)
-			}
-			if hasNull && (hasObj || true) {
-				// a null inside a list whose other elements are objects (or which is typed as a list of objects)
-				for _, e := range v.List {
-					if e.Kind == "ref" || e.Kind == "obj" {
-						f.NullObjElems = true
-					}
-				}
-				if !hasObj && len(v.List) > 0 {
-					// all-null lists of an object type cannot be told from scalar lists here; be generous
-					f.NullObjElems = true
-				}
-			}
-		case "obj":
-			for _, x := range v.Obj.Fields {
-				walk(x)
-			}
-		}
-	}
-	for _, e := range d.Entities {
-		for _, x := range e.Fields {
-			walk(x)
-		}
-	}
-	for _, r := range d.Roots {
-		for _, x := range r {
-			walk(x)
 		}
 	}
 	return f
@@ -206,6 +183,10 @@ func failureMode(invalid string, errs []string, dataDiffers bool) string {
 		}
 		if strings.Contains(invalid, "Cannot query field") {
 			return "invalid-subrequest/unknown-field"
+		}
+		if strings.Contains(invalid, "Expected {, found }") {
+			// the sub-request does not even parse: a field or fragment printed without its selection set
+			return "invalid-subrequest/empty-selection"
 		}
 		return "invalid-subrequest/other"
 	case len(errs) > 0:
@@ -245,9 +226,9 @@ var c01Classes = []c01ClassDef{
 	{"duplicate-response-key", func(o opFacts, d dataFacts, sh bool) bool { return o.DuplicateKey }, []string{"wrong-data", "invalid-subrequest/field-conflict"}},
 	{"plain-node-root", func(o opFacts, d dataFacts, sh bool) bool { return o.PlainNodeRoot }, []string{"wrong-data"}},
 	{"node-root-fragment", func(o opFacts, d dataFacts, sh bool) bool { return o.NodeRoot }, []string{"invalid-subrequest/unknown-field", "error/internal-service-url", "wrong-data", "error/missing-id"}},
-	{"abstract-type-selection", func(o opFacts, d dataFacts, sh bool) bool { return o.Abstract }, []string{"invalid-subrequest/unknown-field", "wrong-data", "error/missing-id"}},
+	{"abstract-type-selection", func(o opFacts, d dataFacts, sh bool) bool { return o.Abstract }, []string{"invalid-subrequest/unknown-field", "invalid-subrequest/empty-selection", "wrong-data", "error/missing-id"}},
+	{"empty-list-default", func(o opFacts, d dataFacts, sh bool) bool { return o.EmptyListDefault }, []string{"wrong-data"}},
 	{"variable-named-id", func(o opFacts, d dataFacts, sh bool) bool { return o.VarNamedID }, []string{"invalid-subrequest/other", "wrong-data", "invalid-subrequest/undefined-variable"}},
-	{"null-in-object-list", func(o opFacts, d dataFacts, sh bool) bool { return d.NullObjElems }, []string{"error/null-list-entry", "wrong-data"}},
 }
 
 func classify(o opFacts, d dataFacts, shadow bool, mode string) string {
